@@ -126,6 +126,18 @@ class FakePoint:
     def __init__(self, *a):
         self.xy = a if len(a) == 2 else tuple(a[0])
 
+    @property
+    def coords(self):
+        return [tuple(self.xy)]
+
+    @property
+    def x(self):
+        return self.xy[0]
+
+    @property
+    def y(self):
+        return self.xy[1]
+
 
 class Box:
     """The boundary region: a symbolic axis-parallel rectangle."""
@@ -168,6 +180,10 @@ class Diamond:
         x, y = p.xy
         e = self._edges(x, y)
         return bool(e[0] & e[1] & e[2] & e[3])
+
+    @property
+    def centroid(self):
+        return FakePoint(self.cx, self.cy)
 
     @property
     def corners(self):
